@@ -48,7 +48,9 @@ func drawOps(reuse bool) func(t *rapid.T) opsCase {
 		verts := ic.vertices()
 		c := opsCase{Index: ic, Furthest: furthest, Reuse: reuse}
 		if reuse {
-			c.Q = drawOpt(t, "q", furthest, false)
+			// (MaxError > 0 with MaxResults > 1 and an index target is the only
+			// combination that uses the query's tested-edge set across cells)
+			c.Q = drawOpt(t, "q", furthest, true)
 		}
 		n := rapid.IntRange(2, 8).Draw(t, "nops")
 		var prev *targetCase
@@ -62,7 +64,7 @@ func drawOps(reuse bool) func(t *rapid.T) opsCase {
 			}
 			if prev != nil && rapid.IntRange(0, 2).Draw(t, l+".same") == 0 {
 				op.T = *prev
-			} else if rapid.IntRange(0, 7).Draw(t, l+".idx") == 0 {
+			} else if rapid.IntRange(0, 7).Draw(t, l+".idx") <= btoi(reuse)*2 {
 				b := drawIndex(t, l+".bx", 4, 40)
 				op.T = targetCase{Kind: "index", Idx: &b}
 			} else {
@@ -83,6 +85,13 @@ func drawOps(reuse bool) func(t *rapid.T) opsCase {
 		}
 		return c
 	}
+}
+
+func btoi(b bool) int {
+	if b {
+		return 1
+	}
+	return 0
 }
 
 // expanded re-states ChordAngle.Expanded for ordinary values.
